@@ -271,3 +271,54 @@ theorem frame_fromPod (E : Env) (path : Str) (u svc : SUnit) (cs : List Str) (h 
     ((so_service (so_addS _ _ _ _)).trans (so_service (so_addS _ _ _ _))))
 
 end Cv
+
+namespace Cv
+open MM
+
+theorem so_applyWd (svc : SUnit) (wd : Option Str) : SameOutside [s "Service"] svc (applyWd svc wd) := by
+  unfold applyWd; split
+  · exact so_addS _ _ _ _
+  · exact SameOutside.refl _ _
+
+theorem so_handleSetWorkingDirectory (unitPath : Str) (u svc : SUnit) (sec : Str) (r : Str × SUnit)
+    (h : handleSetWorkingDirectory unitPath u svc sec = .ok r) : SameOutside [s "Service"] svc r.2 := by
+  unfold handleSetWorkingDirectory at h
+  split at h
+  · simp at h
+  · simp at h; subst h; exact so_applyWd _ _
+
+theorem frame_fromKube (E : Env) (path : Str) (u svc : SUnit) (h : fromKube E path u = .ok svc) :
+    SameOutside [s "Unit", s "Service"] (preService path u (s "Kube") (s "X-Kube")) svc := by
+  unfold fromKube at h
+  simp only [bind_ok] at h
+  obtain ⟨_, _, _, _, h⟩ := h
+  split at h
+  · exact absurd h (throw_bind_ne_ok _ _ _)
+  · simp only [bind_ok] at h
+    obtain ⟨s1, h1, s2, h2, _, _, x3, h3, s4, h4, s5, h5, x6, h6, hfin⟩ := h
+    simp only [pure, Except.pure, Except.ok.injEq] at hfin
+    subst hfin
+    refine (so_service (so_killMode _ _ _ h1)).trans ?_
+    refine (so_service (so_addS s1 "Service" "Environment" (s "PODMAN_SYSTEMD_UNIT=%n"))).trans ?_
+    refine (so_unit (so_addS (addS s1 "Service" "Environment" (s "PODMAN_SYSTEMD_UNIT=%n")) "Unit" "RequiresMountsFor" (s "%t/containers"))).trans ?_
+    have a2 : SameOutside [s "Unit", s "Service"]
+        (addS (addS s1 "Service" "Environment" (s "PODMAN_SYSTEMD_UNIT=%n")) "Unit" "RequiresMountsFor" (s "%t/containers")) s2 := by
+      split at h2
+      · simp [pure, Except.pure] at h2; subst h2
+        exact (so_service (so_addS _ _ _ _)).trans (so_service (so_addS _ _ _ _))
+      · split at h2 <;> (simp [pure, Except.pure] at h2; subst h2)
+        · exact (so_service (so_addS _ _ _ _)).trans (so_service (so_addS _ _ _ _))
+        · exact SameOutside.refl _ _
+    refine a2.trans ?_
+    have a3 : SameOutside [s "Unit", s "Service"] s2
+        (if !hasKey u (s "Service") (s "SyslogIdentifier") then setS s2 "Service" "SyslogIdentifier" (s "%N") else s2) := by
+      split
+      · exact so_service (so_setS _ _ _ _)
+      · exact SameOutside.refl _ _
+    refine a3.trans ?_
+    refine (so_unit (so_handleNetworks _ _ _ _ _ h3)).trans ?_
+    refine (so_service (so_addRawExec _ _ _ _ h4)).trans ?_
+    refine (so_service (so_addRawExec _ _ _ _ h5)).trans ?_
+    exact so_service (so_handleSetWorkingDirectory _ _ _ _ _ h6)
+
+end Cv
